@@ -218,7 +218,7 @@ def split_answer(a):
 def crosscheck(base, model, res, r, tier, klass):
     """returns violations (implementation vs the set oracle); disagreements with the model go to res.disagreements"""
     found = []
-    n = 120 if tier == "quick" else 3000
+    n = 70 if tier == "quick" else 3000
     kinds = {}
     for k in range(n):
         hostile = (k % 5 == 4)
